@@ -2456,6 +2456,12 @@ func (r *stack) pop() (slice any, ok bool) {
 	r.lock()
 	defer r.unlock()
 
+	// the emptiness test made by the caller predates
+	// the lock; repeat it now that the lock is held.
+	if r.ulen() == 0 {
+		return
+	}
+
 	var idx int
 
 	if r.isFIFO() {
